@@ -293,6 +293,9 @@ fn eval_one(req: &Value) -> Value {
 		} else {
 			val
 		};
+		if let Some(idx) = req["arrprobe_at"].as_array() {
+			return Ok(crate::arrprobe::probe_at(&val, idx));
+		}
 		if let Some(extra) = req["arrprobe"].as_u64() {
 			return arr_probe(&val, extra as usize);
 		}
